@@ -271,6 +271,10 @@ type bZooMutualB struct {
 }
 type bZooRecSlice []bZooRecSlice
 type bZooRecPtr *bZooRecPtr
+type bZooMutSliceA []bZooMutSliceB
+type bZooMutSliceB []bZooMutSliceA
+type bZooMutPtrA *bZooMutPtrB
+type bZooMutPtrB []bZooMutPtrA
 type bZooUnion interface{ zooU() }
 type bZooUnionM struct {
 	X string `@Ident`
@@ -287,7 +291,7 @@ type bZooIface interface{ zoo() }
 
 func TestVerif_C19_BuildTotality(t *testing.T) {
 	res := &verifResult{Check: "Build totality", Property: "C19", Exhaustive: true,
-		Bound: "tag soup: all atom sequences of length <= 3 (thorough: <= 4) over 30 atoms {@ @@ Ident Nope \"a\" 'b' 'cd' `e` \"a\":Ident \"a\":Nope ( ) [ ] { } | ? * + ! ~ (?= (?! : = , 1 \"unterminated '}, each as one field, split over two fields, and with token-free (white space only) fields before, between and after, whole-tag and parser:\"...\" forms, field types string and *struct; every single-atom insertion / deletion / replacement of 14 valid tags; 45 field types (maps, channels, functions, interfaces, arrays, anonymous / recursive / left-recursive / self-embedding structs, self-referential slice and pointer types, Parseable with value and pointer receivers, Capture, TextUnmarshaler, lexer.Token) x 8 tags and as root types; 7 cases of misused options (nil union member, duplicate / empty / non-interface union, unknown token names)",
+		Bound: "tag soup: all atom sequences of length <= 3 (thorough: <= 4) over 30 atoms {@ @@ Ident Nope \"a\" 'b' 'cd' `e` \"a\":Ident \"a\":Nope ( ) [ ] { } | ? * + ! ~ (?= (?! : = , 1 \"unterminated '}, each as one field, split over two fields, and with token-free (white space only) fields before, between and after, whole-tag and parser:\"...\" forms, field types string and *struct; every single-atom insertion / deletion / replacement of 14 valid tags; 48 field types (maps, channels, functions, interfaces, arrays, anonymous / recursive / left-recursive / self-embedding structs, self-referential and mutually referential slice and pointer types, Parseable with value and pointer receivers, Capture, TextUnmarshaler, lexer.Token) x 8 tags and as root types; 7 cases of misused options (nil union member, duplicate / empty / non-interface union, unknown token names)",
 		Rule: "distinct (struct type, tag) inputs; non-trivial = the reference recogniser classifies the tag (valid, or one of the property's four rejection classes)"}
 	def := lexer.MustSimple([]lexer.SimpleRule{{Name: "Ident", Pattern: `[a-z]+`}, {Name: "Int", Pattern: `\d+`}, {Name: "Punct", Pattern: `[^\sa-z\d]`}, {Name: "Whitespace", Pattern: `\s+`}})
 	symbols := map[string]bool{"Ident": true, "Int": true, "Punct": true, "Whitespace": true, "EOF": true}
@@ -470,7 +474,7 @@ func TestVerif_C19_BuildTotality(t *testing.T) {
 		reflect.TypeOf(bZooParseVal{}), reflect.TypeOf(&bZooParseVal{}), reflect.TypeOf(bZooParsePtr{}), reflect.TypeOf([]*bZooParsePtr{}), reflect.TypeOf(bZooCapture{}), reflect.TypeOf(&bZooText{}),
 		reflect.TypeOf(struct {
 			C string `@Ident`
-		}{}), reflect.TypeOf(&bZooRec{}), reflect.TypeOf(&bZooLeftRec{}), reflect.TypeOf(&bZooAnonLeftRec{}), reflect.TypeOf(bZooRecSlice{}), reflect.TypeOf(bZooRecPtr(nil)), reflect.TypeOf([]bZooRecSlice{}), reflect.TypeOf(bZooSelfEmbed{}), reflect.TypeOf(&bZooMutualA{}), reflect.TypeOf(bZooEmpty{}), reflect.TypeOf(bZooNoTags{}),
+		}{}), reflect.TypeOf(&bZooRec{}), reflect.TypeOf(&bZooLeftRec{}), reflect.TypeOf(&bZooAnonLeftRec{}), reflect.TypeOf(bZooRecSlice{}), reflect.TypeOf(bZooRecPtr(nil)), reflect.TypeOf([]bZooRecSlice{}), reflect.TypeOf(bZooMutSliceA{}), reflect.TypeOf(bZooMutPtrA(nil)), reflect.TypeOf([]bZooMutPtrB{}), reflect.TypeOf(bZooSelfEmbed{}), reflect.TypeOf(&bZooMutualA{}), reflect.TypeOf(bZooEmpty{}), reflect.TypeOf(bZooNoTags{}),
 		reflect.TypeOf(struct {
 			Self *bZooLeftRec `@@`
 			T    struct {
